@@ -55,3 +55,6 @@ fn shard_index() {
 instances! {
     c01_k4_shard_index => shard_index();
 }
+pub(crate) fn new_map() -> AssetMap {
+    AssetMap::new()
+}
